@@ -101,14 +101,14 @@ Proof. intro H. rewrite alookup_aset. destruct (str_eqb f' f); [discriminate|exa
 
 (* ---------------------------------------------------------------- one action *)
 
-Lemma wt_act_agree ps d s x :
+Lemma wt_act_agree uts ps d s x :
   lookup_agree ps d s ->
   no_dangling (view d) ->
   act_ok (view d) x ->
   act_root x = s ->
   has_stack d s = true ->
   alookup (act_flavor x) (ps_lookup ps) <> None ->
-  exists ps' ch, wt_act false x ps = Ok (ps', ch) /\
+  exists ps' ch, wt_act false uts x ps = Ok (ps', ch) /\
     lookup_agree ps' (apply (compile d x) d) s /\
     ps_modtimes ps' = ps_modtimes ps /\
     (forall f, alookup f (ps_lookup ps) <> None -> alookup f (ps_lookup ps') <> None).
@@ -131,11 +131,11 @@ Proof.
       * intros n' N. rewrite alookup_aset. destruct (str_eqb_spec n' n); [contradiction|reflexivity].
       * split; intro k.
         -- rewrite fd_decl_aset, str_eqb_refl, DD, a_decl_aapply, apath_view, has_stack_path, Hst, a_decl_view.
-           cbn [andb fam_add_version f_versions]. rewrite dkey_same, alookup_aset.
+           cbn [andb fam_read_back fam_add_version f_versions]. rewrite dkey_same, alookup_aset.
            destruct (str_eqb k v); [reflexivity|].
            replace (match alookup n fd with Some fm => fm | None => fam_empty end) with (fam_of fd n) by reflexivity.
            rewrite <- fd_decl_fam. apply A1.
-        -- rewrite fd_tag_aset, str_eqb_refl, DT, a_tag_aapply, a_tag_view. cbn [fam_add_version f_tags].
+        -- rewrite fd_tag_aset, str_eqb_refl, DT, a_tag_aapply, a_tag_view. cbn [fam_read_back fam_add_version f_tags].
            replace (match alookup n fd with Some fm => fm | None => fam_empty end) with (fam_of fd n) by reflexivity.
            rewrite <- fd_tag_fam. apply A2.
     + rewrite (ps_set_family_eq _ _ _ _ _ Efd). reflexivity.
